@@ -1407,18 +1407,26 @@ def _generate_constructor(
     # Nonreentrant lock
     codegen_ctx.emit_nonreentrant_lock(func_t)
 
+    # the deploy epilogue lives in its own block, so that `return`
+    # statements in the constructor body can jump to it
+    exit_bb = builder.create_block("ctor_exit")
+    codegen_ctx.ctor_exit_label = exit_bb.label
+
     # Constructor body
     for stmt in func_ast.body:
         Stmt(stmt, codegen_ctx).lower()
 
-    # Unlock
     if not builder.is_terminated():
-        codegen_ctx.emit_nonreentrant_unlock(func_t)
+        builder.jmp(exit_bb.label)
 
-        # Deploy epilogue: copy runtime code to memory and return
-        _emit_deploy_epilogue(
-            builder, runtime_codesize, immutables_len, codegen_ctx.immutables_alloca
-        )
+    builder.append_block(exit_bb)
+    builder.set_block(exit_bb)
+
+    # Unlock
+    codegen_ctx.emit_nonreentrant_unlock(func_t)
+
+    # Deploy epilogue: copy runtime code to memory and return
+    _emit_deploy_epilogue(builder, runtime_codesize, immutables_len, codegen_ctx.immutables_alloca)
 
 
 def _register_constructor_args(ctx: VenomCodegenContext, func_t: ContractFunctionT) -> None:
